@@ -362,7 +362,7 @@ def toW (o : Opts) (r : RReg) : Option WReg :=
       ∧ (r.angle.all fun a => a.u = U.deg) then
     some { kind := r.kind, sky := !pixel, pts := r.pts.map fun p => (p.1.v, p.2.v),
            sizes := r.sizes.map (·.v), angle := r.angle.map (·.v), text := r.text.getD "",
-           mt := r.mt, vis := r.vis }
+           mt := r.mt, vis := r.vis, ptsKept := r.pts.map fun p => (p.1.v, p.2.v) }
   else none
 
 end RegionsVerif.Impl.Crtf
